@@ -21,11 +21,11 @@ import (
 // URL configuration (the part of the world that selects the livesim2 behaviour).
 
 type URLCfg struct {
-	MPDType    string   `json:"mpdtype"`           // number | timeline | timelinenr
-	StartS     *int64   `json:"start,omitempty"`   // start_<s>
-	Snr        *int     `json:"snr,omitempty"`     // snr_<n>
-	Tsbd       *int     `json:"tsbd,omitempty"`    // tsbd_<s>
-	Ato        string   `json:"ato,omitempty"`     // ato_<x> ("" = none, "inf")
+	MPDType    string   `json:"mpdtype"`         // number | timeline | timelinenr
+	StartS     *int64   `json:"start,omitempty"` // start_<s>
+	Snr        *int     `json:"snr,omitempty"`   // snr_<n>
+	Tsbd       *int     `json:"tsbd,omitempty"`  // tsbd_<s>
+	Ato        string   `json:"ato,omitempty"`   // ato_<x> ("" = none, "inf")
 	ChunkDur   string   `json:"chunkdur,omitempty"`
 	Periods    *int     `json:"periods,omitempty"`
 	Continuous bool     `json:"continuous,omitempty"`
@@ -166,7 +166,7 @@ func merge(ms ...map[string]string) map[string]string {
 }
 
 func p64(v int64) *int64 { return &v }
-func pint(v int) *int     { return &v }
+func pint(v int) *int    { return &v }
 
 // ---------------------------------------------------------------------------------------
 // Shared world: servers and reference models are cached per worker process. Properties that
